@@ -166,6 +166,14 @@ class TermBuilder:
         parent = facts.bodies.get(parent_path) if facts else None
         if parent is None:
             return None
+        # the closure's parent was inlined into exactly one analysed body (a helper extracted from it): the captures and the
+        # iterator are then read in that body's copy, where the helper's parameters are the caller's values
+        hosts = [h for h, lst in getattr(facts, "inlined", {}).items() if parent_path in lst and h in facts.bodies]
+        if len(hosts) == 1:
+            hb = facts.bodies[hosts[0]]
+            if any(st["k"] == "assign" and st["rv"]["r"] == "agg" and st["rv"].get("ak") == "closure" and st["rv"].get("closure") == b.path
+                   for bb in hb.reachable() for st in hb.stmts(bb)):
+                parent = hb
         ptb = TermBuilder(parent, closure_env=(getattr(parent, "kind", None) == "closure"))
         for bb in parent.reachable():
             for st in parent.stmts(bb):
